@@ -57,7 +57,6 @@ Section NS.
   Variable g : config.
   Hypothesis Hsrv : forall c, cmd_served_ok (g_r2ps g) (g_srv g) c = true.
   Hypothesis Hver : g_ver g <> 6%Z.
-  Hypothesis Hg : g_kind g = Ring \/ g_putfail0 g = false.
 
   Ltac wcall s t :=
     eapply (invw_call s _ t); [eassumption|reflexivity|reflexivity|reflexivity|reflexivity|intros ?; reflexivity| |].
@@ -362,7 +361,6 @@ Section NotStuck.
   Variable g : config.
   Hypothesis Hsrv : forall c, cmd_served_ok (g_r2ps g) (g_srv g) c = true.
   Hypothesis Hver : g_ver g <> 6%Z.
-  Hypothesis Hg : g_kind g = Ring \/ g_putfail0 g = false.
   Hypothesis Hcap : (0 < g_cap g)%nat.
 
   Definition can_progress (s : pstate) : Prop := exists l s', progress_label l = true /\ pstep g s l = Some s'.
@@ -416,9 +414,8 @@ Section NotStuck.
       rewrite (a_e2 s IA Hbg t) in K. discriminate.
     - exists (LErr t). cbn [pstep]. rewrite Epc. eexists; split; reflexivity.
     - exists (LDecr t). cbn [pstep]. rewrite Epc.
-      destruct (b && negb (Nat.eqb (pred (p_waits s)) 0)); eexists; split; reflexivity.
-    - destruct (k_drain (p_calls s t)) eqn:Ed; cbn in Hh; try lia;
-        assert (k_pc (p_calls s t) = PRet) by (apply (a_dr s IA); congruence); congruence.
+      destruct (b && negb (Nat.eqb (p_waits s) 1)); eexists; split; reflexivity.
+    - exists (LBgAfter t). cbn [pstep]. rewrite Epc. eexists; split; reflexivity.
     - (* PPut *)
       destruct (q_can_put (p_q s)) eqn:Ecp.
       + exists (LPut t). cbn [pstep]. rewrite Epc. unfold q_put. rewrite Ecp. eexists; split; reflexivity.
@@ -470,7 +467,6 @@ Section NotStuckReach.
   Variable g : config.
   Hypothesis Hsrv : forall c, cmd_served_ok (g_r2ps g) (g_srv g) c = true.
   Hypothesis Hver : g_ver g <> 6%Z.
-  Hypothesis Hg : g_kind g = Ring \/ g_putfail0 g = false.
   Hypothesis Hcap : (0 < g_cap g)%nat.
 
   Theorem all_run sched : forall s s', InvA s -> InvB g s -> InvC s -> InvW s -> prun g sched s = Some s' ->
